@@ -105,6 +105,14 @@ def hash_iteration(prog, chk):
                 chk.ok("A8.hash-iter", key, where, f"iteration over {short_ty(recv_ty)} is consumed order-insensitively: {detail}")
             else:
                 ent = allowed.get((body.path, consumer))
+                if ent is None:
+                    # the reviewed loop may sit in a closure of its function now, or in a function split off from it
+                    import re as _re
+                    outer = _re.sub(r"(::\{closure#\d+\})+$", "", body.path)
+                    for cand in [outer] + sorted(prog.owners_of(outer)):
+                        if allowed.get((cand, consumer)) is not None:
+                            ent = allowed[(cand, consumer)]
+                            break
                 if ent is not None and ent["used"] < ent.get("count", 1):
                     ent["used"] += 1
                     chk.ok("A8.hash-iter", key, where, f"order-sensitive consumer `{consumer}` allowed by reviewed table: {ent['reason']}", by="table")
